@@ -1,3 +1,4 @@
+mod bundled_sboxes;
 mod dynciph;
 mod gen;
 mod monitors;
